@@ -108,7 +108,13 @@ def check(spec, rng):
     fd, fn = tempfile.mkstemp(suffix='.xml')
     os.close(fd)
     try:
-        libsbml.writeSBMLToFile(doc, fn)
+        text = libsbml.writeSBMLToString(doc)
+        # libsbml's setters keep only one of initialAmount / initialConcentration; a file may carry both: write the second one into the text
+        for (sid, a, cc) in spec['species']:
+            if a is not None and cc is not None:
+                text = text.replace('<species id="%s"' % sid, '<species id="%s" initialConcentration="%r"' % (sid, cc), 1)
+        with open(fn, 'w') as fh:
+            fh.write(text)
         M = Model(sbml_filename=fn, sbml_warnings=False)
     finally:
         os.unlink(fn)
@@ -118,7 +124,7 @@ def check(spec, rng):
     if sorted(sd) != sorted(ids):
         return dict(reproduced=True, call=call, what='species set', observed=sorted(sd), expected=sorted(ids))
     for (sid, a, cc) in spec['species']:
-        want = a if a is not None else (cc if cc is not None else 0.0)
+        want = a if (a is not None and (a != 0 or cc is None)) else (cc if cc is not None else 0.0)      # non-zero amount, else concentration, else 0
         if abs(sd[sid] - want) > 1e-12:
             return dict(reproduced=True, call=call, what='initial value of ' + sid, observed=sd[sid], expected=want)
     pd = M.get_parameter_dictionary()
